@@ -198,6 +198,31 @@ def reify_in_tree(draw, j, table, prob=(1, 2), tail=False):
     return j
 
 
+def add_decoy(draw, j, table):
+    """Hangs a node under some node of j that LOOKS reified (dereifiable concept, the two argument relations) but has a third
+    relation, possibly with one of the argument roles again (:ARG2 country :ARG2 continent): dereify_edges must leave it
+    alone.  Mutates and returns j; no-op when the table has no reifications."""
+    if not table['reifications']:
+        return j
+    role, concept, sr, tr = pick(draw, table['reifications'])
+    used = set()
+    nodes = []
+
+    def collect(nd):
+        used.add(nd[0])
+        nodes.append(nd)
+        for r, x in nd[1]:
+            if isinstance(x, list):
+                collect(x)
+    collect(j)
+    v = next(n for n in ['dk', 'dk2', 'dk3', 'dk4'] + ['dk%d' % i for i in range(5, 99)] if n not in used)
+    third_role = pick(draw, [tr, tr, sr, ':ARG3', ':polarity'])
+    third = [third_role, pick(draw, ['continent', '-', '"s"'])]
+    host = nodes[draw(st.integers(0, len(nodes) - 1))]
+    host[1].append([sr + '-of', [v, [['/', concept], [tr, 'country'], third]]])
+    return j
+
+
 # ---- arbitrary (not necessarily well-formed) trees -----------------------------------------------------------
 
 WILD_ROLES = [':consist', ':prep-out', ':prep-on-behalf', ':made', ':out', ':part', ':member', ':instance-of', ':Consist-of', ':ARG0-OF', ':instance', ':r\xa0', ':ARG0\u3000', ':ARG0', ':ARG1', ':r', ':', ':r-of', ':ARG0-of', ':ARG0-of-of', ':-of', ':mod', ':domain-of', ':op1',
